@@ -24,6 +24,29 @@ def rebind(f, **globs):
     return types.FunctionType(f.__code__, g, f.__name__, f.__defaults__, f.__closure__)
 
 
+def rebind_shallow(f, **globs):
+    g = dict(f.__globals__)
+    g.update(globs)
+    return types.FunctionType(f.__code__, g, f.__name__, f.__defaults__, f.__closure__)
+
+
+def rebind_deep(f, **globs):
+    """like rebind, but the plain functions of f's own module are copied into the SAME patched namespace, so that private helpers extracted from f
+    (and helpers of helpers) see the contract stubs too.  Names given in `globs` win over the copies."""
+    g = dict(f.__globals__)
+    for nm, obj in list(g.items()):
+        if isinstance(obj, types.FunctionType) and obj.__module__ == f.__module__ and obj.__globals__ is f.__globals__:
+            g[nm] = types.FunctionType(obj.__code__, g, obj.__name__, obj.__defaults__, obj.__closure__)
+            g[nm].__kwdefaults__ = obj.__kwdefaults__
+    g.update(globs)
+    h = types.FunctionType(f.__code__, g, f.__name__, f.__defaults__, f.__closure__)
+    h.__kwdefaults__ = f.__kwdefaults__
+    return h
+
+
+rebind = rebind_deep   # every contract harness: extracting a private helper from a function under contract must not detach it from the callee stubs
+
+
 def run(rep, tier):
     import autograd.core as C
 
